@@ -67,7 +67,7 @@ Lemma upd_nth {A} (l : list A) i j x d : i <> j -> nth j (upd l i x) d = nth j l
 Proof. revert i j. induction l as [|y l IH]; intros [|i] [|j] H; cbn; try reflexivity; try congruence. apply IH. congruence. Qed.
 
 Definition target (o : op) : option nat :=
-  match o with ONew i _ | OFromList i _ | OCopy i _ | OSetByIndex i _ _ | OSetLength i _ => Some i | _ => None end.
+  match o with ONew i _ | OFromList i _ | OCopy i _ | OSetByIndex i _ _ | OSetLength i _ | OSetElem i _ _ => Some i | _ => None end.
 
 Theorem untargeted_register_unchanged m o i : target o <> Some i -> reg (step m o) i = reg m i.
 Proof.
@@ -76,6 +76,7 @@ Proof.
   - destruct (nth i0 (regs m) Null); try reflexivity; cbn [regs]; apply upd_nth; congruence.
   - destruct (nth i0 (regs m) Null); try reflexivity; cbn [regs]; apply upd_nth; congruence.
   - destruct (Nat.ltb idx _); reflexivity.
+  - destruct (nth i0 (regs m) Null); try reflexivity. destruct (Nat.ltb idx _); [|reflexivity]. cbn [regs]. apply upd_nth; congruence.
 Qed.
 
 (* own copy: after building v[i] from l[k], no sequence of operations on the caller's lists changes v[i] *)
